@@ -23,7 +23,7 @@ RULES = {
     'R3': 'decision table of verify_and_return_effective_range',
     'R4': 'EXPR of the unstable slice; response tip_height',
     'R5': 'BlockHeaderBlob size',
-    'R6': 'stable header store: height index and header map written together, range read by height',
+    'R6': 'stable header store: height index and header map written together, range read by height; boundary moves only with the anchor (= C03.R1, C03.R3)',
 }
 ASSUMPTIONS = []
 GH = 'ic_btc_canister::api::get_block_headers::'
